@@ -390,6 +390,9 @@ func genNodesCase(c *Ctx) {
 func runSort(c *Ctx) {
 	if replayFile != "" {
 		for _, in := range readReplay(replayFile) {
+			if jsonStr(in["kind"]) == "children" {
+				replayChildrenCase(c, in)
+			}
 			if jsonStr(in["kind"]) == "queues" {
 				var cands []qCand
 				for _, e := range in["raw"].([]interface{}) {
@@ -410,7 +413,9 @@ func runSort(c *Ctx) {
 		return
 	}
 	for i := 0; i < c.n; i++ {
-		switch c.pick(4) {
+		switch c.pick(5) {
+		case 4:
+			genChildrenCase(c)
 		case 0:
 			genQueuesCase(c)
 		case 1:
